@@ -1,6 +1,6 @@
 """C02 — prime-field arithmetic realises Z/pZ with canonical results."""
 import subprocess
-from props.bngen import hx
+from props.bngen import window_digits, hx
 
 TRUSTED = [
     "class A (modelled at digit level and proved): fp_addm/subm/negm/dblm/hlvm, Montgomery reduction fp_rdcn_low, fp_mulm/fp_sqrm, conversions",
@@ -39,8 +39,11 @@ def residue(rng, p, R, w, n):
     if k in (4, 5):
         # Montgomery form with structured digits: solve x*R = pattern (mod p)
         pat = 0
-        for i in range(n):
-            pat |= rng.choice([0, B - 1, 1, B >> 1, rng.bits(w)]) << (i * w)
+        if rng.chance(1, 2):
+            pat = window_digits(rng, w, n)
+        else:
+            for i in range(n):
+                pat |= rng.choice([0, B - 1, 1, B >> 1, rng.bits(w)]) << (i * w)
         pat %= p
         return pat * pow(R, -1, p) % p
     if k == 6:
@@ -54,6 +57,8 @@ def rawval(rng, p, w, n):
     if k == 0:
         return rng.choice([0, 1, p - 1, p - 2])
     v = 0
+    if k == 1:
+        return window_digits(rng, w, n) % p
     for i in range(n):
         v |= rng.choice([0, B - 1, 1, B >> 1, rng.bits(w), rng.bits(w)]) << (i * w)
     return v % p
